@@ -79,6 +79,8 @@ class Canon(ast.NodeTransformer):
         return node
 
 
+# function forms the reference tree never uses (checked: 0 occurrences each) - rewritten to the method form at load
+FUNC_TO_METHOD = {"sum", "mean", "any", "clamp_min", "clamp_max", "masked_fill", "unsqueeze", "squeeze", "flatten", "abs", "neg", "eq", "ne", "lt", "le", "gt", "ge"}
 CMP_METHODS = {"lt": ast.Lt, "le": ast.LtE, "gt": ast.Gt, "ge": ast.GtE, "eq": ast.Eq, "ne": ast.NotEq}
 DIM_FIRST_METHODS = {"sum", "mean", "max", "min", "any", "all", "cumsum", "cumprod", "prod", "softmax", "log_softmax", "argmax",
                      "argmin", "unsqueeze", "squeeze", "logsumexp", "std", "var", "flip"}
@@ -106,6 +108,17 @@ class Idioms(ast.NodeTransformer):
         torch.where(m, t, torch.zeros_like(t))    ->  t.masked_fill(~m, 0.0)   (and the mirrored forms)
         a @ b                                     ->  torch.matmul(a, b)"""
 
+    def visit_Call_post(self, node: ast.Call):
+        """Method-form idioms applied to a call that was just rewritten from its function form."""
+        f = node.func
+        m = f.attr
+        if m == "neg" and not node.args and not node.keywords:
+            return ast.copy_location(ast.UnaryOp(op=ast.USub(), operand=f.value), node)
+        if m in DIM_FIRST_METHODS and not node.args and node.keywords and node.keywords[0].arg == "dim":
+            node.args = [node.keywords[0].value]
+            node.keywords = node.keywords[1:]
+        return node
+
     def visit_Call(self, node: ast.Call):
         self.generic_visit(node)
         f = node.func
@@ -126,6 +139,17 @@ class Idioms(ast.NodeTransformer):
                 return node
             base = ast.unparse(f.value)
             is_func = base in ("torch", "torch.nn.functional", "F")
+            # torch.sum(x, ...) -> x.sum(...) for the operations the reference tree only ever writes as methods (so no rule reads
+            # the function form): the receiver is the first positional argument
+            if base == "torch" and m in FUNC_TO_METHOD and node.args and not isinstance(node.args[0], ast.Starred) \
+                    and not any(k.arg in ("input", "out") for k in node.keywords):
+                recv = node.args[0]
+                if not isinstance(recv, (ast.Constant, ast.List, ast.Tuple)):
+                    node = ast.copy_location(ast.Call(func=ast.copy_location(ast.Attribute(value=recv, attr=m, ctx=ast.Load()), f),
+                                                      args=node.args[1:], keywords=node.keywords), node)
+                    return self.visit_Call_post(node)
+            if m in ("neg",) and not node.args and not node.keywords and not is_func:
+                return ast.copy_location(ast.UnaryOp(op=ast.USub(), operand=f.value), node)  # x.neg() -> -x
             if not is_func and m in DIM_FIRST_METHODS and not node.args and node.keywords and node.keywords[0].arg == "dim":
                 node.args = [node.keywords[0].value]
                 node.keywords = node.keywords[1:]
